@@ -208,11 +208,10 @@ func TestC09(t *testing.T) {
 
 // slowSink is an audit sink that yields, so that whatever a method does around its audit record
 // is stretched in time (the record is written between the permission check and the data access).
-type slowSink struct{ n int }
+type slowSink struct{ n atomic.Int64 }
 
 func (s *slowSink) Write(p []byte) (int, error) {
-	s.n++
-	if s.n%3 == 0 {
+	if s.n.Add(1)%3 == 0 {
 		time.Sleep(20 * time.Microsecond)
 	} else {
 		runtime.Gosched()
